@@ -368,3 +368,22 @@ func ExprString(e Expr) string {
 	}
 	return "?"
 }
+
+// SplitConj splits an expression into conjuncts, distributing implications:
+// A ==> (B && C)  gives  A ==> B, A ==> C.
+func SplitConj(e Expr) []Expr {
+	switch x := e.(type) {
+	case *EBin:
+		switch x.Op {
+		case "&&":
+			return append(SplitConj(x.X), SplitConj(x.Y)...)
+		case "==>":
+			var out []Expr
+			for _, y := range SplitConj(x.Y) {
+				out = append(out, &EBin{"==>", x.X, y})
+			}
+			return out
+		}
+	}
+	return []Expr{e}
+}
